@@ -19,6 +19,19 @@ struct BlackHole {
 }
 
 fn make_blackhole(v6: bool) -> BlackHole {
+    make_bound(v6, true)
+}
+
+/// A port that refuses connections for the whole life of the process: bound (so that the kernel never hands it to
+/// another listener of a scenario running in parallel) but not listening.
+fn make_refuser(v6: bool) -> SocketAddr {
+    let b = make_bound(v6, false);
+    let addr = b.addr;
+    std::mem::forget(b);
+    addr
+}
+
+fn make_bound(v6: bool, listen: bool) -> BlackHole {
     unsafe {
         let fam = if v6 { libc::AF_INET6 } else { libc::AF_INET };
         let fd = libc::socket(fam, libc::SOCK_STREAM, 0);
@@ -43,6 +56,9 @@ fn make_blackhole(v6: bool) -> BlackHole {
             libc::getsockname(fd, &mut sa as *mut _ as *mut libc::sockaddr, &mut len);
             addr = SocketAddr::new(std::net::IpAddr::V4(std::net::Ipv4Addr::new(127, 0, 0, 1)), u16::from_be(sa.sin_port));
         }
+        if !listen {
+            return BlackHole { addr, _fd: fd, _fillers: Vec::new() };
+        }
         assert_eq!(libc::listen(fd, 0), 0);
         // fill the accept queue until a probe connection is no longer answered
         let mut fillers = Vec::new();
@@ -63,15 +79,7 @@ fn holes() -> &'static Vec<BlackHole> {
     HOLES.get_or_init(|| (0..6).map(|i| make_blackhole(i < 3)).collect())
 }
 fn refused() -> &'static Vec<SocketAddr> {
-    // ports that were bound and closed again: connecting is refused
-    REFUSED.get_or_init(|| {
-        (0..6)
-            .map(|i| {
-                let l = if i < 3 { TcpListener::bind("[::1]:0") } else { TcpListener::bind("127.0.0.1:0") }.unwrap();
-                l.local_addr().unwrap()
-            })
-            .collect()
-    })
+    REFUSED.get_or_init(|| (0..6).map(|i| make_refuser(i < 3)).collect())
 }
 
 pub fn run(sc: &Value) -> Vec<String> {
